@@ -107,6 +107,27 @@ HIST = {
            "(meta events, testaments) — in order, independent of subscription operations (`realm_store_is_last_N`, `realm_retention_independent_of_subscribers`, `realm_restricted_never_stored`). At any point "
            "`wamp.subscription.get_events` changes nothing and returns the query function of `Props/C20.v` applied to that list, hence only entries published earlier in the history (`realm_get_events_sound`, "
            "`realm_get_events_only_published`; stated at `meta_call` level, the CALL path shown by example).",
+    "C12": "*Over whole histories* (`coq/Props/HistoriesC12.v`, proofs `Router/RealmTraceC12*.v`): for every history of the realm model and ANY authorizer — an EVENT carries publisher identity only if the realm "
+           "allows disclosure and the receiver's record announced `publisher_identification`, and then either the step is that client's PUBLISH admitted with `disclose_me` and the values are the publisher's own, or it is a "
+           "testament of a session departing in that step published by the meta session (its identity: id 1, `trusted`); an INVOCATION leaves a step only in a CALL step to a client callee, further chunks carry `progress` only, a "
+           "first chunk carries the caller's own identity exactly when THIS callee asked at its own REGISTER (`reg_discloses`) or (`disclose_me` ∧ realm allows ∧ callee announced `caller_identification`); a callee is in `reg_disclose` "
+           "only by its own earlier REGISTER with `disclose_caller=true`, admitted because the realm allows disclosure or it is trusted (`realm_disclose_flag_origin`). This statement was first REFUTED on the model that mirrored the code "
+           "(`reg.disclose` kept per registration, set by its creator: a callee joining a shared registration inherited it — replayed on the router, repaired as `adf4e26`, now the positive theorem; `Router/DealerDisclose.v`: "
+           "`disclose_flag_is_callees_own`, `joining_does_not_inherit`).",
+    "C13": "*Over whole histories* (`coq/Props/HistoriesC13.v`, proofs `Router/RealmTraceC13*.v`; gate transparent: no authorizer or one that allows everything unchanged): the model's clock is the sum of the ticks of the trace; an "
+           "invariant ties each invocation record to the trace (the CALL that opened it immediately followed by its INVOCATION, no final reply / final answer / kill-mode CANCEL / reasoned INTERRUPT since, an armed timer lies in the "
+           "future and was armed at T0 with deadline T0 + timeout). `realm_timeout_error_only_when_due`: an ERROR(CALL) `wamp.error.timeout` is either the relay of the callee's own ERROR(INVOCATION) with that URI (WAMP by design: "
+           "the literal statement without this case is refuted, `RelayEx`) or is sent by the tick that crosses the deadline of a call opened with a positive router-kept timeout and neither completed, kill-cancelled nor finally "
+           "answered — never early, never after completion. `realm_timeout_fires`: such a call still recorded when a tick reaches T0 + timeout gets, in that tick and not earlier, the timeout ERROR exactly once and the INTERRUPT iff "
+           "the callee announced `call_canceling`; the call is erased. `realm_interrupt_only_for_pending`: an INTERRUPT has exactly three triggers — CANCEL in kill / killnowait / default mode, the timeout (both: invocation pending, "
+           "callee has `call_canceling`), or a progressive YIELD for a non-pending invocation id (`dealer.go syncYield`, options `mode` only; the literal 'only for a pending invocation' is refuted, `StrayEx`); "
+           "`realm_interrupt_at_most_once` per invocation. Quirk recorded: every further chunk of a progressive call restarts the timeout of the opening call.",
+    "C18": "*Over whole histories* (`coq/Props/HistoriesC18.v`, proofs `Router/RealmTraceC18*.v`): `att A tr` reads the attached session ids off a trace alone (an accepted JOIN appends; a transport drop, an ABORT or a GOODBYE sent "
+           "by the router removes); `realm_attached_is_trace`: after EVERY history the realm's client list is `att [] (trace cfg ops)` — no side hypothesis, any authorizer. At any point a CALL of `wamp.session.count` / `list` / `get` by "
+           "an attached caller with plain options is answered by exactly one message: `length (att …)`, `ids_value (att …)`, a RESULT exactly for the attached ids (`no_such_session` otherwise). `realm_on_join_on_leave_balanced`: for "
+           "a passive observer holding exact subscriptions on `on_join` and `on_leave`, the list of those events it reads equals the list of attachment changes of the window — exactly once each and in order, also within one step "
+           "(the GOODBYE to each victim of a kill precedes its `on_leave`) — PROVIDED nobody forges them: this router reserves `wamp.*` only for REGISTER, so a client may PUBLISH (or store as a testament) `wamp.session.on_leave` itself "
+           "(`realm_on_join_on_leave_balanced_refuted`; recorded as a limit of the statement: C18 speaks of the router's announcements).",
     "C05": "*Over whole histories* (`coq/Props/HistoriesC05.v`): `ended_session_silent` — once a session was attached before op i and is not after it, no later step's output is addressed to it until a JOIN with "
            "that id occurs; `attached_only_by_join`.",
 }
